@@ -129,7 +129,7 @@ def replay_fn_if(a, b, c, n):
 
 def fn_if_padded(truthy: bool, blank: bool, n: int) -> bool:
     """
-    pre: 1 <= n <= 3
+    pre: n == 3
     post: _
     """
     # (concrete texts, symbolic shape: strip() of a concatenation with a symbolic string gave non-reproducing models)
@@ -144,7 +144,7 @@ def replay_fn_if_padded(truthy, blank, n):
 
 def fn_ifeq_padded(same: bool, n: int) -> bool:
     """
-    pre: 2 <= n <= 4
+    pre: n == 4
     post: _
     """
     args = ["a", "a" if same else "b", " y", "n "][:n]
